@@ -834,18 +834,19 @@ impl<'a> History<'a> {
 	pub fn op_stale_coinbase(&mut self, rng: &mut Rng) {
 		let wi = rng.usize(self.w.wallets.len());
 		let outs = self.w.wallets[wi].all_outputs().unwrap_or_default();
-		// (a candidate the wallet still records as unconfirmed although its block has been mined is left alone:
-		// naming it is a miner re-using the key of a block it has already found, not the re-request of the
-		// statement's exception, and the wallet cannot tell the difference before it refreshes)
-		let cbs: Vec<&OutputData> = outs.iter().filter(|o| o.is_coinbase && !(o.status == OutputStatus::Unconfirmed && self.w.is_unspent(&self.w.wallets[wi].commit_of(o)))).collect();
+		// (this includes a candidate the wallet still records as unconfirmed although its block has been mined:
+		// it is no longer a candidate, so naming it must yield a fresh path too)
+		let cbs: Vec<&OutputData> = outs.iter().filter(|o| o.is_coinbase).collect();
 		if cbs.is_empty() {
 			return;
 		}
-		let o = *rng.pick(&cbs);
+		let lagging: Vec<&OutputData> = cbs.iter().cloned().filter(|o| o.status == OutputStatus::Unconfirmed && self.w.is_unspent(&self.w.wallets[wi].commit_of(o))).collect();
+		let o = if !lagging.is_empty() && rng.chance(1, 2) { *rng.pick(&lagging) } else { *rng.pick(&cbs) };
+		let was_lagging = o.status == OutputStatus::Unconfirmed && self.w.is_unspent(&self.w.wallets[wi].commit_of(o));
 		let fees = 1_000_000 * (1 + rng.below(50));
 		let bf = libwallet::BlockFees { fees, key_id: Some(o.key_id.clone()), height: self.w.height() + 1 };
 		let r = self.w.wallets[wi].build_coinbase(&bf);
-		self.stat(&format!("op:coinbase-request-naming-{}-coinbase:{}", if o.status == OutputStatus::Unconfirmed { "an-unconfirmed" } else { "a-confirmed" }, if r.is_ok() { "ok" } else { "refused" }));
+		self.stat(&format!("op:coinbase-request-naming-{}-coinbase:{}", if was_lagging { "a-mined-but-not-yet-refreshed" } else if o.status == OutputStatus::Unconfirmed { "an-unconfirmed" } else { "a-confirmed" }, if r.is_ok() { "ok" } else { "refused" }));
 		self.ev("build_coinbase(key named)", json!({"wallet": wi, "named": idstr(&o.key_id), "named_status": status_str(&o.status), "fees": fees}), &format!("{:?}", r.as_ref().map(|c| c.key_id.as_ref().map(idstr)).map_err(err_kind)));
 	}
 
@@ -1018,8 +1019,16 @@ impl<'a> History<'a> {
 					}
 					Some((pc, pv, was_cb_candidate, at)) => {
 						if *pc != c || *pv != o.value {
-							// exception: a coinbase request may name the still-unconfirmed candidate it replaces
-							if *was_cb_candidate && o.is_coinbase {
+							// exception: a coinbase request may name the still-unconfirmed candidate it replaces - a
+							// candidate, that is, which has not been mined (the wallet's record lags behind the chain
+							// until the next refresh; the wallet has a node to ask)
+							let prev_mined = unhex(pc).map(|b| self.w.is_unspent(&Commitment::from_vec(b))).unwrap_or(false);
+							if *was_cb_candidate && o.is_coinbase && prev_mined {
+								let msg = format!("wallet {}: derivation path {} was used at step {} for the coinbase ({}, {}), which is on chain, and is now used for the new candidate ({}, {})", wi, idstr(&o.key_id), at, &pc[..16], pv, &c[..16], o.value);
+								pend.push(("C15", "C15|path-used-for-two-outputs|replaced-candidate-was-already-mined".to_string(), msg));
+								let upd = (c.clone(), o.value, o.status == OutputStatus::Unconfirmed, self.step);
+								self.keypaths.insert(k, upd);
+							} else if *was_cb_candidate && o.is_coinbase {
 								let upd = (c.clone(), o.value, o.status == OutputStatus::Unconfirmed, self.step);
 								self.keypaths.insert(k, upd);
 							} else {
